@@ -6,7 +6,7 @@ from lib.common import Broken, Violation, verdict, save_replay
 
 PROPS = {
     "C44": {
-        "text": "DualS3.tla models dualS3Client over a primary and a replica bucket with a per-object replica state (present / absent / failing with a generic error / failing with its own deadline- or cancel-class error / stalled until the context it was handed is done), buckets that honour the context they are handed, a caller deadline on every call, a primary outage flag and all eight client operations with and without byte ranges; TLC checks the C44 clauses on the whole reachable state space (no bound on the number of operations). TLC-generated operation sequences (simulation + counterexamples of seven named wrong designs) are replayed on the real dualS3Client over two call-logging, context-honouring fake buckets inside a testing/synctest bubble (virtual time); TLC validates the recorded traces: the C44 predicates on the observed bytes and backend calls (layer O) and step-by-step conformance with the model (layer C).",
+        "text": "DualS3.tla models dualS3Client over a primary and a replica bucket with a per-object replica state (present / absent / failing with a generic error / failing with its own deadline- or cancel-class error / stalled until the context it was handed is done), buckets that honour the context they are handed, a caller deadline on every call, a primary outage flag and all eight client operations with and without byte ranges; TLC checks the C44 clauses on the whole reachable state space (no bound on the number of operations). TLC-generated operation sequences (simulation + counterexamples of eight named wrong designs) are replayed on the real dualS3Client over two call-logging, context-honouring fake buckets inside a testing/synctest bubble (virtual time); TLC validates the recorded traces: the C44 predicates on the observed bytes and backend calls (layer O) and step-by-step conformance with the model (layer C).",
         "note": "Trusted: TLC, the two fake storage.S3Client backends (S3 range semantics as in storage.MemoryS3Client) and their call logs. Assumption: object keys are write-once, so an existing replica copy holds the bytes the primary holds or held; a stale replica copy of an overwritten or deleted key is a property of asynchronous replication and is out of scope. 'What the primary would return' is obtained by asking the primary fake the same question directly.",
         "technique": "TLA+ model (DualS3.tla) + TLC exhaustive check + replay of TLC behaviours into the real dualS3Client + TLC trace validation (observation and conformance layers)",
     }
@@ -15,6 +15,7 @@ DEVIATIONS = {  # cfg suffix -> invariant TLC must report
     "NoFallback": "C44_ReadMatchesPrimary", "FallbackDropsRange": "C44_ReadMatchesPrimary", "IndexNoFallback": "C44_ReadMatchesPrimary",
     "WriteToReplica": "C44_PrimaryOnly", "ListFromReplica": "C44_PrimaryOnly",
     "NoFallbackOnCtxErr": "C44_ReadMatchesPrimary", "ReplicaTimeoutShadows": "C44_ReadMatchesPrimary",
+    "CoalesceIgnoresRange": "C44_ReadMatchesPrimary",
 }
 CLIENT_OPS = {"UploadSegment", "UploadIndex", "DeleteSegment", "DeleteIndex", "DownloadSegment", "DownloadIndex", "ListSegments", "EnsureBucket"}
 HARNESS = {"cmd/broker/zz_verif_dual_test.go": lambda: os.path.join(DIR, "harness", "dual_verif_test.go")}
@@ -128,7 +129,7 @@ def check(ctx, prop):
         "the primary's answer ('want') is obtained by putting the same question to the primary fake directly; the fakes implement S3 byte-range semantics as storage.MemoryS3Client does",
         "EnsureBucket is counted as a write (it may create the bucket)",
         "every client call carries a 10 s caller deadline (virtual time); a read that returns after the caller's own context is done (replica stalled for the caller's whole deadline) owes the caller nothing; both fakes fail a call made on a done context with the context error",
-        "sequential histories: dualS3Client is stateless, every method is a straight-line sequence of at most two backend calls",
+        "dualS3Client is stateless on this tree; besides complete (non-overlapping) operations the schedules contain two overlapping reads: a second read starts while the first is parked inside its primary GET (gate in the primary fake, testing/synctest), no write or replica change happens while a read is in flight",
     ])
 
 
